@@ -1,7 +1,15 @@
-"""C03 - see family_a.py."""
+"""C03 - family A clauses + range-limited outputs are stored as the clamp result (R-CLAMP)."""
 
+from ..rules import r_clamp
+from ..tables import clamp_tables
 from . import family_a
 
 
+def _extra(db, res, tier, scope):
+  n = r_clamp.check_clamp_last(res, scope, clamp_tables.CLAMP_LAST, "C03")
+  res.floor("clamp-last obligations", n, 4)
+
+
 def run(db, res, tier):
-  family_a.run_family(db, res, tier, "C03")
+  family_a.run_family(db, res, tier, "C03", extra=_extra)
+  res.rule_text += "; R-CLAMP: qfrc_actuator (jnt_actfrcrange) and the advanced activation (actuator_actrange) are stored as the clamp result itself - nothing is added after the clamp"
